@@ -429,16 +429,19 @@ func checkIter(in fIn, pairs []kvPair, init fState, possible [fNK]map[int]bool, 
 	return ""
 }
 
-func genFIn(t *rapid.T, vid *int, closing, allowEmpty bool, maxBatch int) fIn {
-	var ops []int
+var (
+	// only operations that are defined on a closed store
+	fOpsClosing = []int{fGet, fGet, fHas, fFlush, fIter, fBatch, fClose, fSizeEst}
+	fOpsOpen    = []int{fPut, fPut, fPut, fPut, fDelete, fDelete, fGet, fGet, fGet, fHas, fFlush, fFlush, fDropNF, fPairs, fPairs,
+		fSizeEst, fSizeEst, fBatch, fSnapshot, fIter, fPutNil, fStat, fCompact}
+)
+
+func genFIn(t *rapid.T, vid *int, closing, allowEmpty bool, maxBatch int, focus []int) fIn {
+	ops := fOpsOpen
 	if closing {
-		// only operations that are defined on a closed store
-		ops = []int{fGet, fGet, fHas, fFlush, fIter, fBatch, fClose, fSizeEst}
-	} else {
-		ops = []int{fPut, fPut, fPut, fPut, fDelete, fDelete, fGet, fGet, fGet, fHas, fFlush, fFlush, fDropNF, fPairs, fPairs,
-			fSizeEst, fSizeEst, fBatch, fSnapshot, fIter, fPutNil, fStat, fCompact}
+		ops = fOpsClosing
 	}
-	in := fIn{Op: rapid.SampledFrom(ops).Draw(t, "op")}
+	in := fIn{Op: pickOp(t, ops, focus)}
 	newVal := func() int {
 		if allowEmpty && rapid.IntRange(0, 9).Draw(t, "empty") == 0 {
 			return vEmpty
@@ -524,6 +527,12 @@ func TestC28Flushable(t *testing.T) {
 
 		lens, maxprocs := drawShape(t, 40)
 		perts := drawPerts(t, lens)
+		var focus []int
+		if closing {
+			focus = drawFocus(t, fOpsClosing)
+		} else {
+			focus = drawFocus(t, fOpsOpen)
+		}
 		progs := make([][]fIn, len(lens))
 		descr := make([][]string, len(lens))
 		extra := 40 // model operations left for the additional entries of batches
@@ -532,7 +541,7 @@ func TestC28Flushable(t *testing.T) {
 		}
 		for g := range progs {
 			for i := 0; i < lens[g]; i++ {
-				in := genFIn(t, &vid, closing, allowEmpty, 1+extra)
+				in := genFIn(t, &vid, closing, allowEmpty, 1+extra, focus)
 				if in.Op == fBatch {
 					extra -= len(in.Batch) - 1
 				}
